@@ -125,8 +125,8 @@ PROPS["C10"] = {
     "text": "Node with heartbeat producer, one heartbeat consumer, SYNC (producer switchable), an event-driven TPDO with inhibit and event time, and an application timer. 30 events: tick; 1017h := {0,1,2,3} periods by SDO and by CODictWrWord; NMT start/stop/pre-op/reset communication/reset node; SDO writes to 1800h:1/:2/:3/:5, 1005h, 1006h, 1016h:1; COTPdoTrigPdo; a changed asynchronous mapped object; application COTmrCreate/COTmrDelete; heartbeat of the monitored node (its timeouts interleave). After every step the heartbeat frames (count, DLC, state byte) must equal the reference schedule: exactly one frame every period counted from the last accepted write or reset, none otherwise. 1 kHz and 100 Hz timers, node ids 1 and 10; a fifth configuration starts OPERATIONAL with the producer off and a TPDO event time of one tick, so that histories of six events reach a timer id wandering from the TPDO to the producer (event expiry outside OPERATIONAL, producer started, TPDO re-initialised). Long periods on fast timers (c10long): heartbeat times {3000, 6554, 10000, 32768, 65535} ms at {1, 2, 10, 20} kHz - up to 1.3 million ticks per period - alone and with another timer user armed, elapsing or deleted while the producer has more than 65535 ticks to go (TPDO event timer, short application timer, longer application timer deleted, SYNC producer); the first two heartbeats must come exactly one and two periods after the write.",
     "note": "depth-bounded (no fixpoint: the product with the other timer users is large); other frames of a step are ignored here",
     "jobs": {
-        "quick": [J("c10", 0, depth=7, deadline=100), J("c10", 1, depth=6, deadline=100), J("c10", 2, depth=6, deadline=100), J("c10", 3, depth=6, deadline=100), J("c10", 4, depth=6, deadline=100), J("c10long")],
-        "thorough": [J("c10", c, depth=10, deadline=1200, max_states=30000000) for c in range(5)] + [J("c10long")],
+        "quick": [J("c10", 0, depth=7, deadline=100), J("c10", 1, depth=6, deadline=100), J("c10", 2, depth=6, deadline=100), J("c10", 3, depth=6, deadline=100), J("c10", 4, depth=6, deadline=100), J("c10", 5, depth=6, deadline=100), J("c10long")],
+        "thorough": [J("c10", c, depth=10, deadline=1200, max_states=30000000) for c in range(6)] + [J("c10long")],
     },
 }
 
@@ -202,8 +202,8 @@ PROPS["C14"] = {
     "text": "Four RPDOs and four TPDOs; the pair number n under reconfiguration is 0, 1 or 3 (configurations: n x {PRE-OPERATIONAL, started OPERATIONAL}), the three other pairs are valid bystanders on their own identifiers and objects. 94 events: per PDO the COB-ID written with {valid, invalid, other id valid, other id invalid, extended, RTR-allowed/extended}; transmission type {1,254,255}; mapping count {0,1,2,8,9}; mapping entries 1, 2 and 8 written with {mappable 8/16/32-bit object, non-mappable, read-only, write-only, non-existing object, 64-bit length, length != object width}; NMT start / pre-op. Per step: accept/refuse verdict, the abort codes the property set fixes (0609 0030h, 0604 0041h, 0604 0042h), and the complete stored configuration (a refused write changes nothing). At every activation (entering OPERATIONAL, re-validation while OPERATIONAL) the PDO is probed: the TPDO frame has DLC = sum of the mapped bytes <= 8 and carries the mapped values, an RPDO frame writes exactly the mapped objects; public ObjNum/Size[] stay within 8; then, on a copy of the state, 8 ticks pass - a TPDO activated with a synchronous type must stay silent without SYNC, one activated as event-driven (its event time is 2 ms) must send. After an invalidation while OPERATIONAL the PDO must neither transmit on a trigger nor take a frame on its old identifier, and after every COB-ID write and every entry into OPERATIONAL each bystander TPDO must still send exactly its configured frame and each bystander RPDO write exactly its object (index arithmetic 14xxh/16xxh/18xxh/1Axxh + n versus the runtime slot n).",
     "note": "verdicts the statement leaves open are accepted either way: invalidating and changing the id in one write, rewriting the identical valid COB-ID, a count that covers an unset (zero) entry, mapping lengths that differ from the object width; the abort code is free for 'PDO is valid' / 'count is not zero' refusals; depth-bounded",
     "jobs": {
-        "quick": [J("c14", c, depth=6, deadline=100) for c in range(6)],
-        "thorough": [J("c14", c, depth=8, deadline=1200, max_states=20000000) for c in range(6)],
+        "quick": [J("c14", c, depth=6, deadline=100) for c in range(8)],
+        "thorough": [J("c14", c, depth=8, deadline=1200, max_states=20000000) for c in range(8)],
     },
 }
 
@@ -234,8 +234,8 @@ PROPS["C17"] = {
     "note": "sub-index 1 means 'all groups' (placeholder CO_PARA) when there are >= 2 groups, as the repository's own unit test builds it; a request addressing a disabled group may be confirmed or aborted; the content of a group whose own driver call was short is adopted from the implementation; NMT reset node reloads the node groups AND the communication groups (co_nmt.h: 'reset application (and communication)'; CiA 301 passes from reset application through reset communication; C20 equates it with a fresh start, which loads every group); on NMT reset communication the node groups may be reloaded or left alone",
     "rule": "a case is a tuple (layout, request history, restart point, fault positions and kinds) executed from a restored snapshot; non-trivial = at least one NVM driver call or SDO answer happened; distinct = distinct hashes of verdicts, driver-call log and final images",
     "jobs": {
-        "quick":    [J("c17", c) for c in range(9)],
-        "thorough": [J("c17", c, deadline=900) for c in range(9)],
+        "quick":    [J("c17", c) for c in range(11)],
+        "thorough": [J("c17", c, deadline=900) for c in range(11)],
     },
     "bounds": {"quick": "histories of length 3, every restart point, 1 fault at every NVM call (short by 1 / 0 bytes)",
                "thorough": "histories of length 4 with 1 fault + histories of length 3 with 2 faults"},
